@@ -42,6 +42,39 @@ func (m *machine) registerReplacements() {
 		"(github.com/libp2p/go-libp2p/core/crypto/pb.KeyType).String":             "KeyTypeString",
 		"berty.tech/go-ipfs-log/identityprovider.compressedToUncompressedS256Key": "SameBytes",
 
+		"(*sync.Map).Load":             "SyncMapLoad",
+		"(*sync.Map).Store":            "SyncMapStore",
+		"(*sync.Map).LoadOrStore":      "SyncMapLoadOrStore",
+		"(*sync.Map).LoadAndDelete":    "SyncMapLoadAndDelete",
+		"(*sync.Map).Delete":           "SyncMapDelete",
+		"(*sync.Map).Swap":             "SyncMapSwap",
+		"(*sync.Map).CompareAndSwap":   "SyncMapCompareAndSwap",
+		"(*sync.Map).CompareAndDelete": "SyncMapCompareAndDelete",
+		"(*sync.Map).Range":            "SyncMapRange",
+		"(*sync.Map).Clear":            "SyncMapClear",
+		"(*sync.Pool).Get":             "SyncPoolGet",
+		"(*sync.Pool).Put":             "SyncPoolPut",
+
+		"(*strings.Builder).WriteString": "BuilderWriteString",
+		"(*strings.Builder).WriteByte":   "BuilderWriteByte",
+		"(*strings.Builder).Write":       "BuilderWrite",
+		"(*strings.Builder).WriteRune":   "BuilderWriteRune",
+		"(*strings.Builder).String":      "BuilderString",
+		"(*strings.Builder).Len":         "BuilderLen",
+		"(*strings.Builder).Cap":         "BuilderCap",
+		"(*strings.Builder).Grow":        "BuilderGrow",
+		"(*strings.Builder).Reset":       "BuilderReset",
+
+		"encoding/json.NewDecoder":                       "JSONNewDecoder",
+		"(*encoding/json.Decoder).Decode":                "JSONDecoderDecode",
+		"(*encoding/json.Decoder).More":                  "JSONDecoderMore",
+		"(*encoding/json.Decoder).DisallowUnknownFields": "JSONDecoderDisallowUnknownFields",
+		"(*encoding/json.Decoder).UseNumber":             "JSONDecoderUseNumber",
+		"encoding/json.NewEncoder":                       "JSONNewEncoder",
+		"(*encoding/json.Encoder).Encode":                "JSONEncoderEncode",
+		"(*encoding/json.Encoder).SetIndent":             "JSONEncoderSetIndent",
+		"(*encoding/json.Encoder).SetEscapeHTML":         "JSONEncoderSetEscapeHTML",
+
 		"context.Background":  "CtxBackground",
 		"context.TODO":        "CtxBackground",
 		"context.WithCancel":  "CtxWithCancel",
